@@ -227,13 +227,20 @@ async fn handler(log: Arc<Mutex<SrvLog>>, me: usize, req: http::Request<Body>) -
     if let Some(on) = on_upgrade {
         // switch protocols: afterwards the client sends `x-ul` pattern bytes and gets `x-rl` pattern bytes back
         let (ul, rl, log2) = (hn("x-ul") as usize % 10_000_000, hn("x-rl") as usize % 10_000_000, log.clone());
+        let half_close = h("x-half-close") == "1";
         tokio::spawn(async move {
             use tokio::io::{AsyncReadExt, AsyncWriteExt};
             let Ok(up) = on.await else { return };
             let mut io = hyperdriver::bridge::io::TokioIo::new(up);
-            let mut got = vec![0u8; ul];
             // a stream that ends early (the caller went away) is not altered data
-            let flag = match io.read_exact(&mut got).await { Ok(_) => if got == pat(id, 5, ul) { None } else { Some("bad:upgraded-bytes") }, Err(_) => Some("aborted") };
+            let flag = if half_close {
+                // the client closes its half when it has said everything; the answer comes after that
+                let mut got = vec![];
+                match io.read_to_end(&mut got).await { Ok(_) => if got == pat(id, 5, ul) { None } else if got.len() < ul { Some("aborted") } else { Some("bad:upgraded-bytes") }, Err(_) => Some("aborted") }
+            } else {
+                let mut got = vec![0u8; ul];
+                match io.read_exact(&mut got).await { Ok(_) => if got == pat(id, 5, ul) { None } else { Some("bad:upgraded-bytes") }, Err(_) => Some("aborted") }
+            };
             if let Some(f) = flag { if let Some(e) = log2.lock().unwrap().calls.get_mut(&id) { if e.1 == "ok" { e.1 = f.into(); } } }
             let _ = io.write_all(&pat(id, 6, rl)).await;
             let _ = io.flush().await;
@@ -273,7 +280,7 @@ fn build(r: &R, tls: bool) -> http::Request<ChunkBody> {
         .header("x-bl", r.blen.to_string()).header("x-o", r.origin.to_string()).header("x-h", host).header("x-dp", if tls { ":443" } else { ":80" }).header("x-s", srv.to_string()).header("x-v", if r.h2 { "2" } else { "11" })
         .header("x-d", r.delay.to_string()).header("x-rl", r.rlen.to_string()).header("x-rc", r.rchunk.to_string())
         .header("x-re", if r.rexact { "1" } else { "0" }).header("x-custom", format!("v{}", r.id))
-        .header("x-ul", r.blen.to_string())
+        .header("x-ul", r.blen.to_string()).header("x-half-close", if upgrade && r.id % 2 == 1 { "1" } else { "0" })
         .body(if upgrade { ChunkBody::default() } else if r.bexact && r.id % 4 == 1 { ChunkBody::own(pat(r.id, 1, r.blen), r.id / 4) }
               else { ChunkBody::new(pat(r.id, 1, r.blen), r.bchunk, r.bexact, if r.id % 3 == 0 && !real_time() { 1 } else { 0 }) })
         .unwrap()
@@ -304,7 +311,13 @@ async fn one(svc: hyperdriver::service::SharedService<http::Request<ChunkBody>, 
             let mut io = hyperdriver::bridge::io::TokioIo::new(up);
             if io.write_all(&pat(r.id, 5, r.blen)).await.is_err() || io.flush().await.is_err() { return "err:upgraded-write".to_string(); }
             let mut got = vec![0u8; r.rlen];
-            if io.read_exact(&mut got).await.is_err() { return "mismatch:upgraded-truncated".to_string(); }
+            if r.id % 2 == 1 {
+                // half-close: nothing more to say, but still listening - the server answers once it has seen the end
+                if io.shutdown().await.is_err() { return "err:upgraded-shutdown".to_string(); }
+                got.clear();
+                if io.read_to_end(&mut got).await.is_err() { return "mismatch:upgraded-truncated".to_string(); }
+                if got.len() < r.rlen { return "mismatch:upgraded-truncated".to_string(); }
+            } else if io.read_exact(&mut got).await.is_err() { return "mismatch:upgraded-truncated".to_string(); }
             if got != pat(r.id, 6, r.rlen) { return "mismatch:upgraded-bytes".to_string(); }
             let _ = io.shutdown().await;
             return "ok".to_string();
